@@ -2,8 +2,9 @@
   C20 — Infraction parameters in force are used; changes are delayed by unbonding.
 -/
 import ICS.Lemmas.Prov
+import ICS.Props.C10
 namespace ICS.Props.C20
-open ICS ICS.Provider
+open ICS ICS.Provider ICS.Spec.Prov ICS.Props.C10
 
 theorem clearQueued_get (s : State) (c : CId) : (clearQueued s c).get c = { s.get c with qinfr := none } := by
   unfold clearQueued
@@ -70,5 +71,131 @@ example :
     ((updateQueuedInfr s1 "0" p1).get "0").qinfr = none ∧ (updateQueuedInfr s1 "0" p1).infrQ = [] ∧
     ((beginBlockInfraction { s1 with now := 149 }).get "0").infr = some p1 ∧
     ((beginBlockInfraction { s1 with now := 150 }).get "0").infr = some p2 := by decide
+
+/-! ### a pending change is in the schedule exactly once, and only while it is pending -/
+
+theorem countIn_cons' (e : Time × List CId) (q : TimeQueue) (c : CId) :
+    countIn (e :: q) c = e.2.count c + countIn q c := by
+  rw [countIn_cons, filter_len_eq_count]
+
+theorem dropFromQueue_cons (e : Time × List CId) (q : TimeQueue) (c : CId) :
+    dropFromQueue (e :: q) c =
+      if (e.2.erase c).isEmpty then dropFromQueue q c else (e.1, e.2.erase c) :: dropFromQueue q c := by
+  unfold dropFromQueue
+  rw [List.filterMap_cons]
+  by_cases h : (e.2.erase c).isEmpty = true <;> simp [h]
+
+/-- dropping `c` from every entry: other consumers keep their entries -/
+theorem countIn_drop_other (q : TimeQueue) (c c' : CId) (h : c' ≠ c) :
+    countIn (dropFromQueue q c) c' = countIn q c' := by
+  induction q with
+  | nil => rfl
+  | cons e q ih =>
+    rw [dropFromQueue_cons, countIn_cons']
+    have h2 := List.count_erase_of_ne h (l := e.2)
+    split
+    · rename_i hem
+      have : e.2.erase c = [] := by simpa using hem
+      rw [this] at h2
+      simp only [List.count_nil] at h2
+      rw [ih]; omega
+    · rw [countIn_cons', ih]; simp only []; omega
+
+theorem countIn_drop_self_le (q : TimeQueue) (c : CId) : countIn (dropFromQueue q c) c ≤ countIn q c := by
+  induction q with
+  | nil => exact Nat.le_refl _
+  | cons e q ih =>
+    rw [dropFromQueue_cons, countIn_cons']
+    split
+    · omega
+    · rw [countIn_cons']; simp only []
+      have := List.count_erase_self (a := c) (l := e.2)
+      omega
+
+/-- a consumer that is scheduled exactly once is not scheduled at all after the drop -/
+theorem countIn_drop_self_one (q : TimeQueue) (c : CId) (h : countIn q c = 1) : countIn (dropFromQueue q c) c = 0 := by
+  induction q with
+  | nil => simp [countIn_nil] at h
+  | cons e q ih =>
+    rw [countIn_cons'] at h
+    rw [dropFromQueue_cons]
+    have hle := countIn_drop_self_le q c
+    have hes := List.count_erase_self (a := c) (l := e.2)
+    by_cases he : e.2.count c = 0
+    · have hq : countIn q c = 1 := by omega
+      split
+      · exact ih hq
+      · rw [countIn_cons']; simp only []; rw [ih hq]; omega
+    · have hq : countIn q c = 0 := by omega
+      split
+      · omega
+      · rw [countIn_cons']; simp only []; omega
+
+theorem sortedQ_drop (q : TimeQueue) (c : CId) (hs : sortedQ q = true) : sortedQ (dropFromQueue q c) = true := by
+  induction q with
+  | nil => rfl
+  | cons e q ih =>
+    obtain ⟨hlt, hsq⟩ := sortedQ_cons e q hs
+    rw [dropFromQueue_cons]
+    split
+    · exact ih hsq
+    · simp only [sortedQ, Bool.and_eq_true, List.all_eq_true, decide_eq_true_eq]
+      refine ⟨?_, ih hsq⟩
+      intro f hf
+      -- every entry of the dropped queue carries the time of an entry of q
+      have : ∃ f0 ∈ q, f0.1 = f.1 := by
+        unfold dropFromQueue at hf
+        rcases List.mem_filterMap.mp hf with ⟨f0, hf0, hff⟩
+        simp only [] at hff
+        split at hff
+        · cases hff
+        · injection hff with hff; exact ⟨f0, hf0, by rw [← hff]⟩
+      rcases this with ⟨f0, hf0, hft⟩
+      rw [← hft]; exact hlt f0 hf0
+
+/-- the consumer's pending change is scheduled exactly once, and only while one is pending -/
+def QueuedOnce (s : State) (c : CId) : Prop :=
+  countIn s.infrQ c = if (s.get c).qinfr.isSome then 1 else 0
+
+theorem clearQueued_count (s : State) (c : CId) (h : QueuedOnce s c) :
+    countIn (clearQueued s c).infrQ c = 0 ∧ ∀ c', c' ≠ c → countIn (clearQueued s c).infrQ c' = countIn s.infrQ c' := by
+  unfold QueuedOnce at h
+  have hq : (clearQueued s c).infrQ = if (s.get c).qinfr.isSome then dropFromQueue s.infrQ c else s.infrQ := rfl
+  rw [hq]
+  by_cases hsome : (s.get c).qinfr.isSome = true
+  · simp only [hsome, if_true] at h ⊢
+    exact ⟨countIn_drop_self_one _ _ h, fun c' hc' => countIn_drop_other _ _ _ hc'⟩
+  · simp only [hsome, Bool.false_eq_true, if_false] at h ⊢
+    exact ⟨h, fun _ _ => trivial⟩
+
+theorem clearQueued_sorted (s : State) (c : CId) (hs : sortedQ s.infrQ = true) : sortedQ (clearQueued s c).infrQ = true := by
+  have hq : (clearQueued s c).infrQ = if (s.get c).qinfr.isSome then dropFromQueue s.infrQ c else s.infrQ := rfl
+  rw [hq]; split
+  · exact sortedQ_drop _ _ hs
+  · exact hs
+
+/-- EXACTLY ONCE: whatever was pending before, after a request the consumer is in the schedule once
+    if a change is now pending and not at all if the request cancelled it; every other consumer's
+    entries are untouched -/
+theorem request_scheduled_once (s : State) (c : CId) (new : Infr) (hs : sortedQ s.infrQ = true) (h : QueuedOnce s c) :
+    QueuedOnce (updateQueuedInfr s c new) c ∧
+    ∀ c', c' ≠ c → countIn (updateQueuedInfr s c new).infrQ c' = countIn s.infrQ c' := by
+  obtain ⟨h0, hoth⟩ := clearQueued_count s c h
+  have hsort := clearQueued_sorted s c hs
+  by_cases heq : (s.get c).infr = some new
+  · -- cancelled
+    have hc := cancel_when_equal s c new heq
+    have hstate : updateQueuedInfr s c new = clearQueued s c := by
+      unfold updateQueuedInfr; simp only [clearQueued_get, heq, beq_self_eq_true, if_true]
+    refine ⟨?_, fun c' hc' => by rw [hstate]; exact hoth c' hc'⟩
+    unfold QueuedOnce
+    rw [hc]; rw [hstate]; simpa using h0
+  · have hq := (queue_when_different s c new heq).1
+    have hQ := queued_due_time s c new heq
+    refine ⟨?_, ?_⟩
+    · unfold QueuedOnce
+      rw [hq, hQ, countIn_tqAppend _ _ _ _ hsort, h0]; simp
+    · intro c' hc'
+      rw [hQ, countIn_tqAppend _ _ _ _ hsort, hoth c' hc']; simp [hc']
 
 end ICS.Props.C20
